@@ -393,6 +393,18 @@ FD_Cbs == {"", "cb"}
 FD_Leaves == <<[p |-> <<"K">>, vals |-> {I(1), Str("1"), I(2)}, extra |-> FALSE],
                [p |-> <<"J">>, vals |-> {I(1), Str("1")}, extra |-> FALSE]>>
 
+\* family "tupledispatch" (C07): composite (tuple-valued) dispatch values on datasets.  A tuple alias is ONE alias
+\* (only a list spreads over several); (1, "1") and (1, 1) differ in a component that prints alike, and the bare 1
+\* is a prefix of both: a lookup that flattens, stringifies or unpacks the dispatch value conflates them.
+FDT_T1 == [t |-> "u", l |-> <<I(1), Str("1")>>]
+FDT_T2 == [t |-> "u", l |-> <<I(1), I(1)>>]
+FDT_Disp == <<FDT_T1, FDT_T2, I(1)>>
+FDT_Leaves == <<[p |-> <<"K">>, vals |-> {I(1), I(2)}, extra |-> FALSE],
+                [p |-> <<"J">>, vals |-> {FDT_T1, FDT_T2, I(1)}, extra |-> FALSE]>>
+FDT_LeavesB == <<[p |-> <<"K">>, vals |-> {I(1)}, extra |-> FALSE],
+                 [p |-> <<"J">>, vals |-> {FDT_T1, FDT_T2}, extra |-> FALSE]>>
+FDT_DispB == <<FDT_T1, FDT_T2>>
+
 \* family "classes" (C19): dataset classes = named members (a dict collection in the machine)
 FL_Kinds == {"val", "opt", "fnapp", "ds", "coll"}
 FL_Paths == {pA, pSX, pSY}
